@@ -63,7 +63,10 @@ def cfgs(enc):
 def cases(enc):
     return st.fixed_dictionaries(
         {"enc": st.just(enc), "cfg": cfgs(enc), "spec": gv.modules(enc),
-         "twice": st.sampled_from([False, False, False, True])})
+         "twice": st.sampled_from([False, False, False, True]),
+         # what the caller hands to the encoder: a PVLModule, or (names unique at the top
+         # level) a plain dict / OrderedDict / read-only mapping holding the same values
+         "top": st.sampled_from([None] * 5 + ["dict", "odict", "proxy"])})
 
 
 def value_feature(v):
@@ -93,6 +96,12 @@ def run_case(case, reader=None, prop="C01", check_errors=False):
         m = gv.build_module(spec)
     except Exception as e:        # generator produced something unbuildable
         return ("skip", f"build: {type(e).__name__}")
+    top = case.get("top")
+    if top and len({k for k, _ in spec}) == len(spec):
+        import collections
+        import types
+        m = {"dict": dict, "odict": collections.OrderedDict,
+             "proxy": lambda it: types.MappingProxyType(dict(it))}[top](list(m.items()))
     try:
         encoder = make_encoder(enc, **case["cfg"])
         if case.get("twice"):
